@@ -27,6 +27,7 @@ RULE = ('cases = random G-PIT programs (BatchNorm after conv/linear, bias on/off
         'program contains a BatchNorm, a join or a depthwise layer (PIT), or >= 2 different '
         'branches (SuperNet); distinct = hash of (program, options).')
 RULE += ('  Round 2: BatchNorm with non-default eps; SuperNet seeds handed over in train mode, with user blocks whose behaviour depends on self.training.')
+RULE += ('  Round 5: a conv->BN pair invoked twice whose later invocation has a pre-BN consumer (must be refused or preserved).')
 ASSUMPTIONS = [
     'the user object\'s own .training flag is not asserted (PLiNIO\'s tracer calls model.eval() on '
     'it; the statement speaks of the mode the *conversion keeps*, i.e. the wrapper)',
@@ -94,7 +95,8 @@ def flags_of(wrapper):
 def run_pit(case, ctx):
     rng = random.Random(case['prog_seed'])
     if case['kind'] == 'pit-reuse':
-        prog = pitgen.reuse_program(rng, case['family'], case['same'], case['with_bn'])
+        prog = pitgen.reuse_program(rng, case['family'], case['same'], case['with_bn'],
+                                    pre_bn_consumer=case['with_bn'] and (case['seed'] // 16) % 2 == 1)
     elif case['kind'] == 'pit-manual':
         prog = pitgen.manual_program(rng, case['family'])
     else:
